@@ -119,6 +119,7 @@ prop("C07", quick={"runs": 16000}, thorough={"runs": 100000000, "budget_s": 600}
             "C07.retained an ErrExpired handed out earlier still carries the value it was created for at the end of the run"],
      probes=["read:nil", "read:notfound", "read:expired", "delete:nil", "delete:notfound", "expireAll", "deleteAll", "walk", "walkErr", "walkDel", "dumpErr", "len", "load", "store"])
 prop("C10", quick={"runs": 16000}, thorough={"runs": 100000000, "budget_s": 600},
+     arch32={"thorough_runs": 100000, "workers": 2},
      rule=BE_RULE + "Root-driven (no concurrency): 1-6 writes (Write, or Store which has no context) with config TTL {default, unlimited, 1ns..10y, negative -2ns..-1y}, context TTL {none, 0, +-1ns..+-10y}, in 8 % each 'forever' TTLs (250y, 280y, MaxInt64/2, MaxInt64, both signs) whose expiry is beyond the last unix-nanosecond instant, "
      "ExpirationJitter {disabled, default, values in (0,1], 1.5, 2}, jitter draw {0, 0.5, 1-2^-53, PRNG}; after each write Walk gives ExpireAt, the clock "
      "is moved to ExpireAt-1ns and ExpireAt+1ns. Non-trivial: at least one write; distinct = distinct scenarios.",
@@ -126,6 +127,7 @@ prop("C10", quick={"runs": 16000}, thorough={"runs": 100000000, "budget_s": 600}
             "C10.R3 fresh 1ns before, ErrExpired 1ns after the reported instant (window not representable: reported expiry not before the window, entry served now and 20 years on)", "C10.R4 ErrExpired.ExpiredAt == Walk's ExpireAt"],
      probes=["never_expiring_write", "jitter_disabled_write", "jittered_write", "flip_probed", "born_expired", "expiry_beyond_representable_time"])
 prop("C11", quick={"runs": 30000}, thorough={"runs": 100000000, "budget_s": 600},
+     arch32={"thorough_runs": 100000, "workers": 2},
      rule=BE_RULE + "Root-driven writes (never-expiring, fresh, recently expired, long expired), entries arriving through Restore (without expiry, with expiry; a third of the latter over a stream that breaks after the record) and clock jumps; the real janitor goroutine runs as a "
      "scheduled task whenever the simulated clock crosses DeleteExpiredJobInterval; after every jump that contained a cycle the surviving key set is "
      "compared with the reference map. A fifth of the runs rewrite long-expired keys while a cycle is walking the shards; another fifth are a concurrent phase "
@@ -135,6 +137,7 @@ prop("C11", quick={"runs": 30000}, thorough={"runs": 100000000, "budget_s": 600}
      probes=["janitor_met_never_expiring_entry", "janitor_met_fresh_entry", "janitor_met_recently_expired_entry", "janitor_deleted_long_expired_entry",
              "unlimited_cache_with_explicit_ttl_cycle", "cleanup_cycle_during_concurrent_phase", "quiet_cycle_purged_long_expired_entry", "entry_without_expiry_restored", "entry_with_expiry_restored", "default_delete_expired_after", "fresh_write_during_cleanup_cycle"])
 prop("C12", quick={"runs": 6000}, thorough={"runs": 100000000, "budget_s": 600},
+     arch32={"thorough_runs": 100000, "workers": 2},
      rule=BE_RULE + "Root-driven fill of 1-400 entries around CountSoftLimit, access histories (reads at distinct simulated instants, rewrites), "
      "EvictionNeeded scripts, HeapInUseSoftLimit / SysMemSoftLimit at the two allocator-independent settings (1 byte: always exceeded, MaxUint64: never), "
      "EvictFraction in (0,1], three strategies; in 40 % of the LFU runs some entries arrive through Restore from a cache with the LRU strategy that had served them a few times; the real janitor/eviction runs as a scheduled task. A fifth of the runs: reads racing each other before an LRU/LFU cycle; "
@@ -167,13 +170,14 @@ prop("C18", quick={"runs": 12000}, thorough={"runs": 100000000, "budget_s": 600}
      probes=["refresh_counted", "failed_build_counted", "expireAll_counted", "deleteAll_counted", "concurrent_metrics_checked", "deleteAll_concurrent_with_writes", "expireAll_concurrent_with_writes", "colliding_write_replaced_entry"])
 TR_RULE = "Root-driven scenarios drawn from the seeded PRNG; the simulator owns the byte stream / round-tripper / deleters and the iteration order of maps and sync.Map (so every Walk order the source can produce is sampled). "
 prop("C13", quick={"runs": 6000}, thorough={"runs": 100000000, "budget_s": 600},
-     arch32={"thorough_runs": 100000, "workers": 2},
+     arch32={"quick_runs": 400, "thorough_runs": 100000, "workers": 2},
      rule=TR_RULE + "Source caches with 0-300 entries (keys of differing lengths incl. empty, binary and 4095-70000 bytes, values nil / zero / populated structs / maps / pointers, "
      "expiry unset / set / already expired) are dumped and restored along chains of 1-4 hops over ShardedMap<->SyncMap and ShardedMapOf[GV]; a third of the "
      "runs truncate or fail the stream at a byte offset or deliver it in 1-byte reads. Non-trivial: at least one entry; distinct = distinct scenarios x map order.",
      rules=["C13.R1 entry sets equal after Dump->Restore", "C13.R2 Read agrees", "C13.R3 counts", "C13.R4 relay through further hops", "C13.R5 stream faults: subset of intact entries"],
      probes=["relayed_through_second_hop"])
 prop("C14", quick={"runs": 6000}, thorough={"runs": 100000000, "budget_s": 600},
+     arch32={"thorough_runs": 100000, "workers": 2},
      rule=TR_RULE + "Exporter and importer HTTPTransfer instances with 0-4 named caches each (partly overlapping names, in 30 % names that need URL escaping; loggers of every shape in 40 %); Import runs against Export() through an "
      "in-process http.RoundTripper; a third of the runs inject round-trip errors, 5xx, truncated / failing bodies, a rewritten typesHash, or a slow link (4 simulated seconds per read of the body: nothing may be lost). Every 50th run is the "
      "auxiliary (non-simulation) hash clause: 4 fresh OS processes register permutations / multiplicities (in 35 % one of them after other registrations and a GobTypesHashReset) of a type pool (struct, pointer-registered, slice, map, basic kinds, "
